@@ -34,6 +34,8 @@ CHECKS["C04"] = {
          "shards": {"quick": 2, "thorough": 4}},
         {"name": "sm3-huge", "pkg": "sm3", "run": "TestVX_C04Huge", "public_files": ["sm3/C04huge_pub_test.go"],
          "shards": {"quick": 2, "thorough": 3}},
+        {"name": "sm3-single-huge", "pkg": "sm3", "run": "TestVX_C04Single", "public_files": ["sm3/C04huge_pub_test.go"],
+         "shards": {"quick": 4, "thorough": 8}},
         {"name": "cold-start", "pkg": "sm3", "run": "TestVX_C04Cold", "public_files": ["sm3/Cold_pub_test.go"], "shards": 2, "exclusive": True},
     ],
     "deadline": {"quick": 200, "thorough": 3000},
@@ -178,6 +180,7 @@ CHECKS["C06"] = {
          "shards": 16, "env": {"VX_PART": "seal-armglue"}},
         {"name": "seal-generic", "variant": "generic", "pkg": "sm4", "run": "TestVX_C06", "public_files": SM4P + ["sm4/C06_pub_test.go"],
          "shards": 16, "env": {"VX_PART": "seal-generic"}},
+        {"name": "asm-entry-state", "cmd": ["env", "VX_LIVEIN_PROP=C06", "python3", "{verif}/tools/asmlivein.py"]},
         {"name": "seal-huge", "pkg": "sm4", "run": "TestVX_C06Huge", "public_files": SM4P + ["sm4/C06huge_pub_test.go"],
          "shards": {"quick": 6, "thorough": 8}, "env": {"VX_PART": "seal-huge"}},
         {"name": "seal-huge-armglue", "variant": "armglue", "pkg": "sm4", "run": "TestVX_C06Huge", "public_files": SM4P + ["sm4/C06huge_pub_test.go"],
@@ -212,6 +215,9 @@ CHECKS["C07"] = {
          "public_files": SM4P + ["sm4/C10_pub_test.go", "sm4/C06_pub_test.go", "sm4/C07_pub_test.go"], "shards": 16, "env": {"VX_PART": "open-armglue"}},
         {"name": "open-generic", "variant": "generic", "pkg": "sm4", "run": "TestVX_C07",
          "public_files": SM4P + ["sm4/C10_pub_test.go", "sm4/C06_pub_test.go", "sm4/C07_pub_test.go"], "shards": 16, "env": {"VX_PART": "open-generic"}},
+        {"name": "asm-entry-state", "cmd": ["env", "VX_LIVEIN_PROP=C07", "python3", "{verif}/tools/asmlivein.py"]},
+        {"name": "open-huge", "pkg": "sm4", "run": "TestVX_C07Huge", "public_files": SM4P + ["sm4/C06huge_pub_test.go"],
+         "shards": {"quick": 5, "thorough": 8}, "env": {"VX_PART": "open-huge"}},
     ],
     "prepare": {"generic": [["python3", "{verif}/tools/prep_generic.py", "{repo}"]], "armglue": [["python3", "{verif}/tools/prep_armglue.py", "{repo}"]]},
     "deadline": {"quick": 200, "thorough": 3000},
@@ -228,6 +234,8 @@ CHECKS["C11"] = {
         {"name": "guard-public", "pkg": "sm4", "run": "TestVX_C11", "public_files": SM4P + ["sm4/C10_pub_test.go", "sm4/C11_pub_test.go"], "shards": 16, "env": {"VX_PART": "seal"}},
         {"name": "guard-public-generic", "variant": "generic", "pkg": "sm4", "run": "TestVX_C11", "public_files": SM4P + ["sm4/C10_pub_test.go", "sm4/C11_pub_test.go"],
          "shards": 16, "env": {"VX_PART": "guard-public-generic"}},
+        {"name": "stack-sweep", "pkg": "sm4", "run": "TestVX_StackSweep", "public_files": SM4P + ["sm4/C10_pub_test.go", "sm4/C11_pub_test.go", "sm4/Stack_pub_test.go"],
+         "shards": 12, "env": {"VX_PART": "stack-sweep", "VX_STACK_PROP": "C11", "GODEBUG": "efence=1"}},
     ],
     "deadline": {"quick": 200, "thorough": 2400},
 }
@@ -261,9 +269,12 @@ CHECKS["C17"] = {
         {"name": "sched-sm4-generic", "variant": "schedgen", "pkg": "sm4", "run": "TestVX_C17_SM4", "public_files": C17F, "shards": 6, "env": {"VX_PART": "sched-sm4-generic"}},
         {"name": "sched-sm2", "variant": "sched", "pkg": "sm2", "run": "TestVX_C17_SM2", "public_files": SM2P + ["sm2/C17_pub_test.go"], "shards": 2},
         {"name": "asm-static-state", "cmd": ["env", "VX_ASMTAINT_ONLY=static-write", "VX_ASMTAINT_PROP=C17", "VX_ASMTAINT_PART=asm-static-state", "python3", "{verif}/tools/asmtaint.py"]},
+        {"name": "asm-entry-state", "cmd": ["env", "VX_LIVEIN_PROP=C17", "python3", "{verif}/tools/asmlivein.py"]},
         {"name": "asm-footprint", "cmd": ["python3", "{verif}/tools/asmfootprint.py"]},
         {"name": "race-sm4", "variant": "sched", "race": True, "pkg": "sm4", "run": "TestVX_C17_SM4_Race", "public_files": C17F, "gomaxprocs": 16},
         {"name": "race-sm2", "variant": "sched", "race": True, "pkg": "sm2", "run": "TestVX_C17_SM2_Race", "public_files": SM2P + ["sm2/C17_pub_test.go"], "gomaxprocs": 16},
+        {"name": "stack-sweep", "pkg": "sm4", "run": "TestVX_StackSweep", "public_files": SM4P + ["sm4/Stack_pub_test.go"],
+         "shards": 12, "env": {"VX_PART": "stack-sweep", "VX_STACK_PROP": "C17", "GODEBUG": "efence=1"}},
         {"name": "cold-concurrent", "race": True, "pkg": "sm2", "run": "TestVX_SM2Cold", "public_files": SM2P + ["sm2/Cold_pub_test.go"], "gomaxprocs": 16, "shards": 8,
          "env": {"VX_PART": "cold-concurrent"}},
     ],
@@ -281,3 +292,31 @@ CHECKS["C08"] = {
     ],
     "deadline": {"quick": 200, "thorough": 2400},
 }
+
+# ---------------------------------------------------------------- 32-bit word size
+# The library is pure Go outside sm4's amd64/arm64 kernels and builds for 32-bit targets, where int, uint and big.Word
+# have 32 bits: the same public drivers are built a second time with GOARCH=386 (such a binary runs natively on the
+# amd64 host) and run at the quick depth of their alphabets in both tiers.
+W32 = {
+    "C01": ["sign-verify"], "C02": ["sign-exact"], "C03": ["verify-exact"], "C04": ["sm3-history", "sm3-single-huge"], "C05": ["block-public"],
+    "C06": ["seal"], "C07": ["open"], "C10": ["buffers-gcm", "buffers-sum", "inputs-sm2"], "C12": ["keys"], "C13": ["za-wrappers"],
+    "C14": ["mul-public"], "C15": ["point-encoding", "point-arith-public"], "C16": ["field", "chain", "multiselect"],
+    "C19": ["failing-rand"], "C20": ["cmp", "naf"],
+}
+for _pid, _names in W32.items():
+    _c = CHECKS[_pid]
+    _new = []
+    for _p in _c["parts"]:
+        if _p["name"] in _names and not _p.get("variant"):
+            _q = dict(_p)
+            _q["name"] = _p["name"] + "-w32"
+            _q["variant"] = "w32"
+            _q["goarch"] = "386"
+            _q["tier_cap"] = "quick"
+            _q.pop("files", None)
+            _q.pop("kind", None)
+            _q["env"] = dict(_p.get("env", {}), VX_W32="1")
+            _new.append(_q)
+    _c["parts"] = _c["parts"] + _new
+    if "" in _c.get("prepare", {}):
+        _c["prepare"]["w32"] = _c["prepare"][""]
